@@ -10,10 +10,15 @@ FORMS = [
  "len(A.lookupRecords(K=$T))", "A.lookupOne(Name=$T).K or 'none'", "PREVIOUS(rec, order_by='T').T if PREVIOUS(rec, order_by='T') else None",
  "RANK(rec, order_by='T')", "NEXT(rec, group_by='T', order_by='id').id", "$R.N + ($R.N or 0)", "'$Name' + \"$N\"  # $Name", "max(a.N for a in A.all if a.K == $T)",
  "A.lookupRecords(K=rec.T).find.ge(1).Name if A.lookupRecords(K=rec.T, order_by='N') else ''", "B.lookupRecords(R=$R).T", "B.lookupRecords(L=CONTAINS($R)).T",
- "f'{$R.Name}-{rec.T}'",
+ "f'{$R.Name}-{rec.T}'", "f'''{$T}:\n{$R.Name} {rec.T}'''",
 ]
 NAMES = ["Z", "def", "n", "a b", "Name2", "R", "N", "T", "id", "é", "class", "", "1x", "_p"]
-TARGETS = [("A", "Name"), ("A", "K"), ("A", "N"), ("B", "R"), ("B", "L"), ("B", "T"), ("A", None), ("B", None)]
+TARGETS = [("A", "Name"), ("A", "K"), ("A", "N"), ("B", "R"), ("B", "L"), ("B", "T"), ("A", None), ("B", None),
+           ("C", "V"), ("C", "Name2"), ("C", None), ("B", "RC")]
+# an earlier schema change in its own bundle (the judged rename is the second step of a history): renames that rewrite no
+# formula text, a rename of the table / column the second step touches, a retargeted reference
+PRE = [None, ("RenameTable", "C", "C9"), ("RenameTable", "A", "A9"), ("RenameColumn", "C", "V", "W9"), ("RenameColumn", "B", "T", "T9"),
+       ("RenameColumn", "B", "RC", "RC9"), ("ModifyColumn", "B", "RC", {"type": "Ref:A"})]
 PATHS = ["action", "metadata colId/tableId", "label"]
 _base = []
 warm_up = B.warm_up
@@ -30,11 +35,17 @@ def base():
     af = [f for f in FORMS if f not in bf]
     for i, f in enumerate(bf):
       cols.append({"id": "F%d" % i, "type": "Any", "isFormula": True, "formula": f})
+    # C has data columns only and no formula mentions it by name: it is reached through $RC.<col> chains only
+    d.apply(["AddTable", "C", [{"id": "Name2", "type": "Text", "isFormula": False}, {"id": "V", "type": "Int", "isFormula": False}]])
+    cols.append({"id": "RC", "type": "Ref:C", "isFormula": False})
+    for i, f in enumerate(["$RC.V", "$RC.Name2 + '!'", "rec.RC.V + len($RC.Name2)"]):
+      cols.append({"id": "H%d" % i, "type": "Any", "isFormula": True, "formula": f})
     d.apply(["AddTable", "B", cols])
+    d.apply(["BulkAddRecord", "C", [None] * 2, {"Name2": ["p", "q"], "V": [10, 20]}])
     for i, f in enumerate(af):
       d.apply(["AddColumn", "A", "G%d" % i, {"type": "Any", "isFormula": True, "formula": f}])
     d.apply(["BulkAddRecord", "A", [None] * 3, {"Name": ["a", "b", "x"], "K": ["x", "y", "x"], "N": [1, 2, 3]}])
-    d.apply(["BulkAddRecord", "B", [None] * 3, {"R": [1, 2, 3], "L": [["L", 1, 2], ["L", 3], None], "T": ["x", "a", "y"]}])
+    d.apply(["BulkAddRecord", "B", [None] * 3, {"R": [1, 2, 3], "L": [["L", 1, 2], ["L", 3], None], "T": ["x", "a", "y"], "RC": [1, 2, 0]}])
     _base.append(F.Saved(d))
   return _base[0]
 
@@ -63,10 +74,20 @@ def toks(s):
     return None
 
 
-def judge(ti, ni, pi):
+def judge(ti, ni, pi, pre=0):
   t, c = TARGETS[ti]
   new = NAMES[ni]
   d = base().restore()
+  if PRE[pre]:
+    ua = PRE[pre]
+    try:
+      d.apply(list(ua))
+    except Exception:
+      return None, False
+    if ua[0] == "RenameTable" and ua[1] == t:
+      t = ua[2]
+    elif ua[0] == "RenameColumn" and (ua[1], ua[2]) == (t, c):
+      c = ua[3]
   f0, v0 = formulas(d), fvals(d)
   try:
     if c is None:
@@ -99,8 +120,14 @@ def judge(ti, ni, pi):
     return (tt, cc)
   v1 = fvals(d)
   f1 = formulas(d)
+  def _same(new_, old_):
+    # a cell that already was an error before the rename (e.g. it names an attribute that does not exist) is not judged: giving
+    # another column that name legitimately changes it
+    if not (isinstance(new_, list) and isinstance(old_, list) and len(new_) == len(old_)):
+      return F.eq(new_, old_)
+    return all((isinstance(o, list) and o[:1] == ["E"]) or F.eq(n, o) for n, o in zip(new_, old_))
   for k, v in v0.items():
-    if not F.eq(v1.get(key(k)), v):
+    if not _same(v1.get(key(k)), v):
       ref_ = None
       return ("rename %s.%s -> %r via %s changed formula results: %s.%s %s -> %s" % (t, c, new, PATHS[pi], k[0], k[1], v, v1.get(key(k))),
               True, {"col": "%s.%s" % k})
@@ -119,9 +146,12 @@ def make_body(shard):
 
   def body(h):
     ni = h.int("name", 0, len(NAMES))
-    res = judge(ti, ni, pi)
+    pre = h.int("pre", 0, len(PRE))
+    res = judge(ti, ni, pi, pre)
     msg, ok = res[0], res[1]
-    w = {"target": ti, "name": ni, "path": pi}
+    if msg and pre:
+      msg = "after %s: %s" % (list(PRE[pre]), msg)
+    w = {"target": ti, "name": ni, "path": pi, "pre": pre}
     viol = []
     if msg:
       d = base().restore()
@@ -135,7 +165,7 @@ def make_body(shard):
         except Exception:
           pass
       viol.append({"msg": msg, "witness": w, "sig": {"formula": formula, "target": "%s.%s" % TARGETS[ti]}})
-    return {"nontrivial": ok, "violations": viol, "sample": {"target": TARGETS[ti], "name": NAMES[ni], "path": PATHS[pi]}}
+    return {"nontrivial": ok, "violations": viol, "sample": {"target": TARGETS[ti], "name": NAMES[ni], "path": PATHS[pi], "pre": PRE[pre]}}
   return body
 
 
@@ -144,7 +174,7 @@ def SHARDS(tier):
 
 
 def replay(w):
-  res = judge(w["target"], w["name"], w["path"])
+  res = judge(w["target"], w["name"], w["path"], w.get("pre", 0))
   return [res[0]] if res[0] else []
 
 
@@ -153,9 +183,9 @@ META = {
             "sandbox/grist/identifiers.py"],
   "oracle": "every formula column holds the same values before and after the rename (columns keyed through the rename); a formula "
             "whose text changed differs from the old text only in NAME / STRING tokens",
-  "rule": "one evaluation = one (entity, new name, rename path) cube on a restored two-table document with %d formula shapes; "
-          "non-trivial = the rename was accepted" % len(FORMS),
-  "bounds": {"formula shapes": FORMS, "new names": NAMES, "entities": [list(x) for x in TARGETS], "paths": PATHS},
+  "rule": "one evaluation = one (earlier schema change, entity, new name, rename path) cube on a restored three-table document with %d formula "
+          "shapes; non-trivial = the rename was accepted" % (len(FORMS) + 3),
+  "bounds": {"earlier schema change (own bundle)": [list(x) if x else None for x in PRE], "formula shapes": FORMS + ["$RC.V", "$RC.Name2 + '!'", "rec.RC.V + len($RC.Name2)"], "new names": NAMES, "entities": [list(x) for x in TARGETS], "paths": PATHS},
   "assumptions": ["formula text is enumerated; the offset arithmetic behind the rewriting is decided symbolically in C37"],
 }
 
